@@ -31,6 +31,12 @@ def build(spec, fresh=False):
     if "kit" in spec:
         mod = importlib.import_module("moclo.kits." + spec["kit"])
         return getattr(mod, spec["name"])
+    if "subclass_of" in spec:       # a user subclass of a kit class that only declares another cutter
+        parent = build(spec["subclass_of"])
+        key = repr(sorted(spec.items(), key=str))
+        if key not in _dyn:
+            _dyn[key] = type(str("Custom" + parent.__name__ + spec["enz"].get("name", "Syn")), (parent,), {"cutter": cutter_of(spec["enz"])})
+        return _dyn[key]
     key = repr(sorted(spec.items(), key=str))
     if not fresh and key in _dyn:
         return _dyn[key]
